@@ -18,12 +18,15 @@ def run(sid):
             return sid, None, "patch does not apply: " + p.stderr[-200:]
         shutil.copy(os.path.join(HERE, "known_findings.json"), d + "/verif")
         hits = {}
+        # one process, one loaded program, every registered check in turn
+        c = subprocess.run([os.environ.get("SLOCKCHECK_BIN", os.path.join(HERE, "bin/slockcheck")), "-repo", d + "/repo", "-verif", d + "/verif", "-property", ",".join(props)], env=ENV, capture_output=True, text=True)
+        rcs = dict(re.findall(r"^RESULT property=(C\d+) rc=(\d+)$", c.stdout, re.M))
+        if len(rcs) != len(props):
+            return sid, None, "checker did not report every property: " + c.stdout[-300:] + c.stderr[-300:]
         for prop in props:
-            c = subprocess.run([os.environ.get("SLOCKCHECK_BIN", os.path.join(HERE, "bin/slockcheck")), "-repo", d + "/repo", "-verif", d + "/verif", "-property", prop], env=ENV, capture_output=True, text=True)
-            if c.returncode == 1:
-                rules = sorted(set(re.findall(r"\[(C\d+/R\w+)\]", c.stdout)))
-                hits[prop] = rules
-            elif c.returncode == 2:
+            if rcs[prop] == "1":
+                hits[prop] = sorted(set(r for r in re.findall(r"\[(C\d+/R\w+)\]", c.stdout) if r.startswith(prop + "/")))
+            elif rcs[prop] == "2":
                 hits[prop] = ["undecided"]
         return sid, hits, ""
     finally:
